@@ -507,12 +507,14 @@ func (s *Store[K, V]) DeleteWithSecondary(key K) error {
 	entry, ok := shard.get(key)
 	if ok {
 		shard.delete(entry)
-		if s.secondaryCache != nil {
-			err := s.secondaryCache.Delete(key)
-			if err != nil {
-				shard.mu.Unlock()
-				return err
-			}
+	}
+	// the key may exist in secondary cache only(evicted from memory),
+	// so always delete from secondary cache
+	if s.secondaryCache != nil {
+		err := s.secondaryCache.Delete(key)
+		if err != nil {
+			shard.mu.Unlock()
+			return err
 		}
 	}
 	shard.mu.Unlock()
